@@ -43,6 +43,16 @@ CLAIMED.update({
     'C16': dict(_A, design='§8 C16', technique='symbolic execution of parsing.h incl. the beam loop (exp modelled exactly for exp/exp); z3 discharges "leaf within beam" and "failure implies no derivation inside the beam" per path; native replay',
                 text='for every tag-score matrix within the bounds, every pruning_size in 1..3 and beta in {0.5,0.05,1e-5} or filter off: no returned tree uses a tag outside the stated beam, and a parse fails only if no derivation lies inside the tie-strict beam'),
 })
+CLAIMED.update({
+    'C08': dict(engine='P', design='§8 C08', technique='bounded symbolic execution of auto_of/conll_of -> read_auto -> auto_of on z3 with symbolic token/pos strings and head flags (incl. literal-extended tokens), replay on real files',
+                text='for every tree within the shape bound and every token/pos within the length bound (each character a solver variable over printable non-blank text without backslash): reading the printed AUTO line gives the same categories, shape, head flags, pos and escaped words, reprinting reproduces the line, conll fragments concatenate to it'),
+    'C18': dict(engine='P', design='§8 C18', technique='bounded symbolic execution of to_string over symbolic format sequences (k-way forks) and symbolic tokens; deep snapshots compared after every rendering; replay with real lxml/json',
+                text='for every sequence of 2 (3) output formats applied to the same result objects within the bounds, every tree/category/token is unchanged after every rendering and the last output equals the rendering of a fresh copy'),
+    'C19': dict(engine='P', design='§8 C19', technique='symbolic execution (forks over lexicon, rule results, unary steps, batch position; symbolic token) of the real rule functions building derivations, rendered by every formatter; replay with real lxml/json',
+                text='every derivation of <= 3 leaves the real grammars license over the lexicon, every label they can return (one licensed example each), and the failure placeholder alone or inside a batch render without error in every CLI format except the two that need nltk, and the other sentences of the batch appear in the output'),
+    'C20': dict(engine='P', design='§8 C20', technique='bounded symbolic execution of ptb_of -> read_ptb and ja_of -> read_ccgbank on z3 with symbolic tokens, labels and annotations; every proper prefix of a PTB line; replay on real files',
+                text='within the bounds PTB and Japanese-bank text written by depccg reads back to the same categories, shape, words (and rule symbols for ja), with and without bank annotations; truncated PTB lines are rejected; one recorded finding (PTB tokens beginning with "(" or ending with ")")'),
+})
 REASONS = {}
 def main():
     checks = []
